@@ -633,6 +633,75 @@ pub fn read_cases() -> Vec<ReadCase> {
     v
 }
 
+/// X3: a header block cut into HEADERS + CONTINUATION + CONTINUATION at every pair of offsets (empty fragments and cuts on
+/// field boundaries included), and into PUSH_PROMISE + CONTINUATION at every offset, for three encodings of the same list:
+/// every cutting must parse to the same header list as the unsplit block.
+pub fn split_case(enc: usize, push: bool, i: usize, j: usize) -> ReadCase {
+    let fields: [(&[u8], &[u8]); 6] = [(b":method", b"GET"), (b":scheme", b"https"), (b":path", b"/x"), (b"accept-encoding", b"gzip, deflate"), (b"x-a", b"1"), (b"x-a", b"22")];
+    let sum = "fields=:method=GET,:path=/x,:scheme=https,accept-encoding=gzip, deflate,x-a=1,x-a=22";
+    let block = match enc {
+        0 => rh::encode_block(&fields, false, false),
+        1 => rh::encode_block(&fields, true, false),
+        _ => rh::encode_block(&fields, false, true),
+    };
+    let i = i.min(block.len());
+    let j = j.clamp(i, block.len());
+    let cat = |frames: &[wf::RawFrame]| -> Vec<u8> { frames.iter().flat_map(|f| f.encode()).collect() };
+    if push {
+        ReadCase { name: format!("split-push-enc{}-{}", enc, i), wire: cat(&[wf::push_promise(1, 2, &block[..i], false), wf::continuation(1, &block[i..], true)]), expect: vec![format!("PUSH_PROMISE sid=1 promised=2 {}", sum)], max_recv: 16384 }
+    } else {
+        ReadCase {
+            name: format!("split-headers-enc{}-{}-{}", enc, i, j),
+            wire: cat(&[wf::headers(1, &block[..i], true, false), wf::continuation(1, &block[i..j], false), wf::continuation(1, &block[j..], true)]),
+            expect: vec![format!("HEADERS sid=1 eos=true {}", sum)],
+            max_recv: 16384,
+        }
+    }
+}
+
+fn split_block_len(enc: usize) -> usize {
+    // (the cut positions of a case are clamped to the block: ask for the far end)
+    let c = split_case(enc, true, usize::MAX, usize::MAX);
+    c.wire.len() - 9 - 4 - 9
+}
+
+fn split_sweep(vios: &mut VioSet, cases: &AtomicU64) {
+    let mut todo: Vec<(usize, bool, usize, usize)> = vec![];
+    for enc in 0..3 {
+        let n = split_block_len(enc);
+        for i in 0..=n {
+            todo.push((enc, true, i, i));
+            for j in i..=n {
+                todo.push((enc, false, i, j));
+            }
+        }
+    }
+    let found: std::sync::Mutex<Vec<Violation>> = std::sync::Mutex::new(vec![]);
+    par_for(todo.len(), |k| {
+        let (enc, push, i, j) = todo[k];
+        let case = split_case(enc, push, i, j);
+        cases.fetch_add(1, Ordering::Relaxed);
+        let r = std::panic::catch_unwind(|| run_read(&case, &[]).got);
+        let got = match r {
+            Ok(g) => g,
+            Err(p) => vec![format!("PANIC {}", crate::c11::panic_text(&p))],
+        };
+        if got != case.expect {
+            found.lock().unwrap().push(Violation {
+                rule: "C12.parse-mismatch".into(),
+                signature: format!("split:{}:{}", if push { "PUSH_PROMISE" } else { "HEADERS" }, if got.iter().any(|g| g.starts_with("PANIC")) { "panic" } else { "differs" }),
+                what: format!("{}: h2 parsed {:?}, the unsplit block reads {:?}", case.name, got, case.expect),
+                replay: json!({"harness": "c12.split", "enc": enc, "push": push, "i": i, "j": j}),
+            });
+        }
+    });
+    let mut found = found.into_inner().unwrap();
+    found.sort_by(|a, b| a.what.cmp(&b.what));
+    for v in found {
+        vios.add(v);
+    }
+}
+
 // ---------------------------------------------------------------------------------------------
 // oversize frames are rejected as soon as the head is in
 
@@ -794,6 +863,11 @@ pub fn run(ctx: &Ctx) -> Outcome {
     oversize_check(&mut total.vios, &oversize_cases);
     out.harness("codec-cases", json!(per));
     out.harness("oversize-heads", json!({"cases": oversize_cases.load(Ordering::Relaxed)}));
+    let split_cases = AtomicU64::new(0);
+    split_sweep(&mut total.vios, &split_cases);
+    out.harness("header-block-split-sweep", json!({"cases": split_cases.load(Ordering::Relaxed), "rule": "HEADERS + CONTINUATION + CONTINUATION at every pair of offsets, PUSH_PROMISE + CONTINUATION at every offset, three HPACK encodings"}));
+    out.add_count("evaluations", split_cases.load(Ordering::Relaxed));
+    out.add_count("traces_validated_against_impl", split_cases.load(Ordering::Relaxed));
     // connection level
     let scs = t1_scenarios();
     let t1 = run_t1_property(ctx, "C12", &scs, judge_c12_t1, if quick { 1 } else { 2 }, full_policy(), &[]);
@@ -855,6 +929,14 @@ pub fn replay(v: &Value) -> bool {
             println!("whole read    : {:#?}", base.got);
             println!("this chunking : {:#?}", r.got);
             base.got != case.expect || r.got != base.got
+        }
+        "c12.split" => {
+            let case = split_case(v["enc"].as_u64().unwrap_or(0) as usize, v["push"].as_bool().unwrap_or(false), v["i"].as_u64().unwrap_or(0) as usize, v["j"].as_u64().unwrap_or(0) as usize);
+            let got = std::panic::catch_unwind(|| run_read(&case, &[]).got).unwrap_or_else(|p| vec![format!("PANIC {}", crate::c11::panic_text(&p))]);
+            println!("case     : {}", case.name);
+            println!("expected : {:#?}", case.expect);
+            println!("h2 parsed: {:#?}", got);
+            got != case.expect
         }
         "c12.oversize" => {
             let mut vs = VioSet::default();
